@@ -418,6 +418,21 @@ def corpus(world):
     return H
 
 
+def exhaustive(world, maxlen=4):
+    """every history of length <= maxlen over an 8-letter alphabet, two configured platforms"""
+    import itertools
+    a, b, x = 25544, 28654, 33591
+    cfg = [(a, 0), (b, 1)]
+    w = world.tle
+    alpha = [("U", w(a, 8, 264.5, 0), 0), ("U", w(a, 8, 264.5, 1), 1), ("U", w(a, 8, 264.49999999, 0), 0), ("U", w(b, 8, 264.5, 0), 2),
+             ("U", w(x, 8, 264.5, 0), 0), ("E", True, False), ("R",), ("C", w(b, 8, 264.5, 0), 2, "AfterCreate")]
+    out = []
+    for n in range(1, maxlen + 1):
+        for ops in itertools.product(alpha, repeat=n):
+            out.append((cfg, list(ops)))
+    return out
+
+
 def crash_variants(hist):
     """every statement boundary of every update of a history"""
     cfg, ops = hist
@@ -473,7 +488,8 @@ def run(ctx):
     ctx.rule = ("histories of <= 12 operations (corpus histories are the listed ones) over {update(tle, source), crash(point, tle, source), "
                 "export(write_name, write_always), close+reopen}, 1-4 configured platforms out of 7 satellites, epochs incl. whole-second, "
                 "1 us apart, duplicates with other text/source, unconfigured satellites; crash points BeforeCreate/AfterCreate/AfterName/InRow "
-                "for every update of the corpus and of a sample of random histories; fetch_tles.run x3 on one file; distinct = distinct history")
+                "for every update of the corpus and of a sample of random histories; thorough: every history of length <= 4 over an 8-letter "
+                "alphabet; fetch_tles.run x3 on one file; distinct = distinct history")
     ctx.assumptions += [
         "hand-written model M_Db.v tied to tlefile.SQLiteTLE by this run (model evaluated by vm_compute inside Coq, compared after EVERY "
         "operation on updated flag / escaped exception / row count / exported file and at the end on all rows and platform_names)",
@@ -502,6 +518,8 @@ def run(ctx):
             h = gen_history(world, rng, maxlen=8)
             vs = crash_variants(h)
             hists += [(v, "random-crash") for v in (vs if not ctx.quick else rng.sample(vs, min(len(vs), 16))) if len(v[1]) <= 12]
+        if not ctx.quick:
+            hists += [(h, "exhaustive") for h in exhaustive(world)]
         CH = 200
         for c0 in range(0, len(hists), CH):
             chunk = hists[c0:c0 + CH]
